@@ -134,6 +134,9 @@ class TC(fm.TimeComponent):
         extra = 0.001 * sum(vals) if self.spec.get("mix") else 0.0
         for o in range(self.nout):
             self.outputs[f"Out{o}"].push_data(self.value(nt) + 0.5 * o + extra, nt)
+        if getattr(self.tr, "all_outputs", None) is not None:
+            # retained history length of every output after this update (C01 network correspondence)
+            self.tr.events.append(("ret", self.idx, [len(x.data) for x in self.tr.all_outputs]))
         self.tr.current = None
 
     def _finalize(self):
@@ -251,6 +254,8 @@ def build(spec, mem_limit=None, mem_location=None):
         else:
             comps.append(SC(i, trace))
     order = spec.get("order") or list(range(len(comps)))
+    trace.comps = comps
+    trace.out_index = out_index
     kw = {}
     if mem_limit is not None:
         kw = {"slot_memory_limit": mem_limit, "slot_memory_location": mem_location}
@@ -293,9 +298,13 @@ def build(spec, mem_limit=None, mem_location=None):
 
         obj.get_data = logged
 
+    if spec.get("record_retained"):
+        trace.all_outputs = [None] * len(out_index)
     for c, cobj in enumerate(comps):
         for o in range(nout[c]):
             wrap(cobj.outputs[f"Out{o}"], ("out", out_index[(c, o)]))
+            if spec.get("record_retained"):
+                trace.all_outputs[out_index[(c, o)]] = cobj.outputs[f"Out{o}"]
     for li, out, ads, inp in link_objs:
         for ai, a in enumerate(ads):
             wrap(a, ("ad", li, ai))
@@ -363,6 +372,7 @@ def run_impl(spec, timeout=8, connect_only=False, mem_limit=None, mem_location=N
     res["fin_counts"] = [fin_count.get(id(a), 0) for a in adapters]
     res["n_adapters"] = len(adapters)
     res["n_adapters_set"] = len(comp._adapters) if hasattr(comp, "_adapters") else None
+    res["retained"] = [[e[1], e[2]] for e in trace.events if e[0] == "ret"]
     res["series"] = {}
     for e in trace.events:
         if e[0] == "got":
@@ -419,3 +429,30 @@ def model_request(spec, fuel=4000):
         else:
             comps.append({"kind": "pull", "inputs": inputs[c]})
     return {"op": "sched_run", "comps": comps, "outs": outs, "ndp": ndp, "end": spec["end"], "fuel": fuel}, order
+
+
+def net_request(spec, fuel=4000):
+    """the same composition for the Lean network model (op net_run): scheduler state + initial publications of every
+    output + end points (one per non-static link)"""
+    req, order = model_request(spec, fuel)
+    req = dict(req)
+    req["op"] = "net_run"
+    nin, nout, out_index = layout(spec)
+    pos = {c: i for i, c in enumerate(order)}
+    starts = [c["start"] for c in spec["comps"] if c["kind"] == "time"]
+    t0 = min(starts) if starts else 0
+    hist = [None] * len(out_index)
+    for (c, o), gi in out_index.items():
+        p = spec["comps"][c]["start"]
+        hist[gi] = [t0, p] if p != t0 else [p]
+    neps = [0] * len(out_index)
+    ep = []
+    jcount = {}
+    for l in spec["links"]:
+        gi = out_index[(l["src"], l["out"])]
+        j = jcount.get(l["dst"], 0)
+        jcount[l["dst"]] = j + 1
+        ep.append([pos[l["dst"]], j, neps[gi]])
+        neps[gi] += 1
+    req["hist"], req["neps"], req["ep"] = hist, neps, ep
+    return req, order
